@@ -34,11 +34,21 @@ structure Step where
 /-- `strnstr(tok, ":", len)`: does the NameTest carry a prefix -/
 def hasPrefix (raw : Bytes) : Bool := raw.contains 58
 
+/-- split at the first `:`; `none` if there is none -/
+def splitAtColon : Bytes → Option (Bytes × Bytes)
+  | [] => none
+  | c :: r =>
+    if c == 58 then some ([], r)
+    else
+      match splitAtColon r with
+      | none => none
+      | some (p, n) => some (c :: p, n)
+
 /-- prefix and local name of a NameTest (split at the first `:`) -/
 def splitName (raw : Bytes) : Option Bytes × Bytes :=
-  match raw.span (· != 58) with
-  | (_, []) => (none, raw)
-  | (p, _ :: n) => (some p, n)
+  match splitAtColon raw with
+  | none => (none, raw)
+  | some (p, n) => (some p, n)
 
 def localName (raw : Bytes) : Bytes := (splitName raw).2
 
